@@ -87,6 +87,21 @@ static void check_block(const char *meta, size_t n, const std::vector<Entry> &es
             if(e.has_value && !e.value.empty()) add(e.value);
         }
         add("zz");
+        // the same key in the other case of its letters is another key
+        { std::vector<std::string> more; for(auto &q : probes) { std::string t = q; bool ch = false; for(char &c : t) { if(islower((unsigned char)c)) { c = (char)toupper((unsigned char)c); ch = true; } else if(isupper((unsigned char)c)) { c = (char)tolower((unsigned char)c); ch = true; } } if(ch) more.push_back(t); } for(auto &t : more) add(t); }
+        // lookups whose key string lies INSIDE the block (a title taken from an iteration, or any text that follows a ':' in the block): the
+        // result depends on the characters of the key only, never on where they are stored
+        for(size_t j = 1; j < n; ++j) if(meta[j - 1] == ':' && meta[j]) {
+            const char *kp = meta + j; std::string key = kp;
+            const Entry *first = nullptr; for(auto &e : es) if(e.key == key) { first = &e; break; }
+            const char *got = mc[kp]; vp::transition();
+            const bool want_value = first && first->has_value;
+            if(want_value != (got != nullptr) || (want_value && first->value != got))
+                vp::violation(std::string("lookup|operator[]|key-pointer-inside-the-block|") + sh, cid, show_entries(es) + ": ['" + key + "'] with the key string taken from the block itself = " + (got ? "'" + std::string(got) + "'" : "null") + " expected " + (want_value ? "'" + first->value + "'" : "null"));
+            rtosc::Port::MetaIterator f = mc.find(kp); vp::transition();
+            if((bool)f != (first != nullptr) || (first && (key != f.title || want_value != (f.value != nullptr) || (want_value && first->value != f.value))))
+                vp::violation(std::string("entry|find|key-pointer-inside-the-block|") + sh, cid, show_entries(es) + ": find('" + key + "') with the key string taken from the block itself");
+        }
         for(const std::string &p : probes) {
             const Entry *first = nullptr;
             for(auto &e : es) if(e.key == p) { first = &e; break; }
@@ -267,8 +282,10 @@ int main(int argc, char **argv)
     Family medium = make_family("medium", {"a", "b", "ab", "a ", "1", "b1"}, {"", "a", ":", "=", " ", "1", ":a", "a:", "=:", ":=", "a="});
     Family small = make_family("small", {"a", "b", "ab", " 1"}, {"", "a", ":", "=", ":a", "a:", "=:"});
     Family tiny = make_family("tiny", {"a", "ab"}, {"", ":", "a"});
+    Family cased = make_family("case", {"a", "A", "ab", "Ab", "aB", "q", "Q"}, {"", "x", "X", "a", "A:a"});
     vp::bound("family_full", "20 keys (length 1..2 over {a,b,' ',1}) x 32 values (absent, length 0..2 over {a,':','=',' ',1}): all blocks of 1..2 entries");
     if(T) vp::bound("family_wide", "20 keys x 14 values (absent, length 0..2 over {a,':','='}): all blocks of 3 entries");
+    vp::bound("family_case", "7 keys {a A ab Ab aB q Q} x 6 values: all blocks of 1..3 entries; every probe also with the case of its letters swapped");
     vp::bound("family_medium", "6 keys x 12 values: all blocks of 3 entries" + std::string(T ? " and of 4 entries" : ""));
     vp::bound("family_small", "4 keys x 8 values: all blocks of 4 entries" + std::string(T ? " and of 5 entries" : ""));
     vp::bound("family_tiny", "2 keys x 4 values: all blocks of 5.." + std::string(T ? "8" : "7") + " entries");
@@ -278,6 +295,7 @@ int main(int argc, char **argv)
     macro_blocks();
     long_strings(T ? 4100 : 1030);
     run_family(full, 1); run_family(full, 2);
+    run_family(cased, 1); run_family(cased, 2); run_family(cased, 3);
     run_family(medium, 3);
     run_family(small, 4);
     for(int n = 5; n <= 7; ++n) run_family(tiny, n);
